@@ -245,7 +245,7 @@ func runC18(c *Ctx) {
 		// returns phi[f.n, f.conn.n] with the conn edge under conn.n < n
 		ok := false
 		for _, in := range instrsWhere(fn, isReturn) {
-			if phi, isPhi := in.(*ssa.Return).Results[0].(*ssa.Phi); isPhi && len(phi.Edges) >= 2 {
+			if phi, isPhi := unspill(in.(*ssa.Return), 0).(*ssa.Phi); isPhi && len(phi.Edges) >= 2 {
 				hasOwn, hasConn := false, false
 				for i, e := range phi.Edges {
 					_, f, base, okf := loadedField(e)
